@@ -182,6 +182,40 @@ let cmd_chains () =
        | None -> print_endline "NONE")
     | [] -> print_endline "BADCASE")
 
+(* ---- frames: "W<hex>:<slack>;D;X<id>;F;N<slack>;C" -> "id=hex|..." of the live frames (storage model, C07) ---- *)
+let rec int_of_nat = function M.O -> 0 | M.S n -> 1 + int_of_nat n
+let cmd_frames () =
+  iter_lines (fun line ->
+    let st = ref (M.finit (nat_of_int 8192)) in
+    let ok = ref true in
+    List.iter (fun e ->
+      if e <> "" then begin
+        let rest = String.sub e 1 (String.length e - 1) in
+        let ev = match e.[0] with
+          | 'W' -> (match String.split_on_char ':' rest with
+                    | [h; sl] -> Some (M.EWrite (bytes_of_string (unhex h), nat_of_int (int_of_string sl)))
+                    | _ -> None)
+          | 'D' -> Some M.EDecode
+          | 'X' -> Some (M.EDrop (nat_of_int (int_of_string rest)))
+          | 'F' -> Some M.EFront
+          | 'N' -> Some (M.ENew (nat_of_int (int_of_string rest)))
+          | 'C' -> Some M.EDropConn
+          | _ -> None in
+        match ev with
+        | Some (M.EDecode) ->
+          let before = int_of_nat (!st).M.next_id in
+          st := M.fstep !st M.EDecode;
+          if int_of_nat (!st).M.next_id <> before + 1 then ok := false   (* the implementation delivered a frame here *)
+        | Some ev -> st := M.fstep !st ev
+        | None -> ok := false
+      end) (String.split_on_char ';' line);
+    if not !ok then print_endline "MISMATCH: a decode of the implementation has no counterpart in the model"
+    else begin
+      let fs = List.map (fun (id, v) -> (int_of_nat id, hex (string_of_bytes (M.read (!st).M.heap v)))) (!st).M.live in
+      let fs = List.sort compare fs in
+      print_endline (String.concat "|" (List.map (fun (id, h) -> string_of_int id ^ "=" ^ h) fs))
+    end)
+
 (* ---- client: "R<reads>|W<writes>|L<flushes>|O<ops>" -> observations ---- *)
 let split_nonempty c s = if s = "" then [] else String.split_on_char c s
 
@@ -264,6 +298,7 @@ let () =
   | "parse" -> cmd_parse ()
   | "owned" -> cmd_owned ()
   | "chains" -> cmd_chains ()
+  | "frames" -> cmd_frames ()
   | "builder" -> cmd_builder ()
   | "bodystruct" -> cmd_bodystruct ()
   | "tags" -> cmd_tags ()
